@@ -157,6 +157,58 @@ fn text_pool(ops: &[Sx]) -> Vec<Vec<i64>> {
     pool
 }
 
+/// operations that add an annotation over two text selections of one resource (a Multi, Composite or
+/// Directional selector) and simple annotations on and around those ranges
+fn discontinuous_ops(ops: &[Sx], rng: &mut Rng) -> Vec<Sx> {
+    let mut store = new_store();
+    for op in ops {
+        let _ = apply(&mut store, op);
+    }
+    let cand: Vec<(usize, usize)> = store.resources().filter(|r| r.textlen() >= 4).map(|r| (r.handle().as_usize(), r.textlen())).collect();
+    if cand.is_empty() {
+        return vec![];
+    }
+    let (h, len) = *rng.pick(&cand);
+    let b = rng.below(len - 3);
+    let gap = 1 + rng.below((len - b - 2).min(3));
+    let rr = l(vec![a(1), a(h as i64)]);
+    let text = |x: usize, y: usize| l(vec![a(0), rr.clone(), l(vec![a(0), a(x as i64)]), l(vec![a(0), a(y as i64)])]);
+    let (b2, e2) = (b + gap, (b + gap + 1 + rng.below(2)).min(len));
+    let mut parts = vec![text(b, b + 1), text(b2, e2)];
+    if rng.chance(1, 3) {
+        parts.reverse();
+    }
+    let mut sel = vec![a(7), a(1 + rng.below(3) as i64)];
+    sel.extend(parts);
+    let mut out = vec![l(vec![a(3), a(-1), l(sel), l(vec![])])];
+    for (x, y) in [(b, b + 1), (b + 1, b2), (b2, e2), (b, e2), (b, b), (e2, e2), (b + 1, b + 1)] {
+        if x <= y && y <= len && rng.chance(2, 3) {
+            out.push(l(vec![a(3), a(-1), text(x, y), l(vec![])]));
+        }
+    }
+    out
+}
+
+/// RELATION ?outer OP first (and, through the orderings, later) in a sub-query, ?outer bound to the
+/// annotations of the store - among them the discontinuous ones: every operator
+fn relation_queries(rng: &mut Rng) -> Vec<Q> {
+    let mut out = Vec::new();
+    for k in 0..10 {
+        let extra = match rng.below(3) {
+            0 => vec![],
+            1 => vec![Cst::Res(VRef::Id(rng.below(6) as i64), false)],
+            _ => vec![Cst::Ann(VRef::Var(0), rng.chance(1, 2))],
+        };
+        let mut cs = vec![Cst::Rel(0, k)];
+        cs.extend(extra);
+        let rt = if rng.chance(1, 4) { 5 } else { 0 };
+        let cs = if rt == 5 { vec![Cst::Rel(0, k)] } else { cs };
+        let sub = Q { name: 1, rt, cs, lim: None, opt: false, sub: None };
+        out.push(Q { name: 0, rt: 0, cs: vec![], lim: None, opt: false, sub: Some(Box::new(sub)) });
+    }
+    out
+}
+
 fn qentry(q: &Q) -> Sx {
     l(vec![q_sx(q), a(chain_available(q) as i64)])
 }
@@ -194,7 +246,12 @@ pub fn generate_queries(out: &mut Out, ctx: &Ctx, tier: &str, seed: u64) {
     let mut cfg = QCfg { pool: vec![], facts: vec![], rts: vec![0, 0, 0, 1, 1, 2, 3, 3, 4, 5, 5], texts: true, unions: true, limits: true, max_depth: 2 };
     for i in 0..nhist {
         let hcfg = GenCfg { max_ops: if i % 3 == 0 { 24 } else { 12 }, removals: if i % 2 == 0 { 2 } else { 0 }, invalid: 0, values: true };
-        let ops = gen_history(&mut rng, &hcfg);
+        let mut ops = gen_history(&mut rng, &hcfg);
+        let discontinuous = i % 3 == 1;
+        if discontinuous {
+            let more = discontinuous_ops(&ops, &mut rng);
+            ops.extend(more);
+        }
         cfg.pool = text_pool(&ops);
         {
             let mut store = new_store();
@@ -256,6 +313,14 @@ pub fn generate_queries(out: &mut Out, ctx: &Ctx, tier: &str, seed: u64) {
             }
             for o in orderings(&q) {
                 entries.push(qentry(&o));
+            }
+        }
+        if discontinuous {
+            for q in relation_queries(&mut rng) {
+                out.count("select_relation_to_annotation");
+                for o in orderings(&q) {
+                    entries.push(qentry(&o));
+                }
             }
         }
         out.count_n("select_entries", entries.len() as u64);
@@ -385,6 +450,6 @@ pub fn generate(out: &mut Out, tier: &str, seed: u64) {
     }
 }
 
-pub const RULE: &str = "Layer 1 - LimitIter: exhaustive over item counts 0..=7 (thorough 12) and all (begin,end) in -9..=9 (thorough -15..=15), plus random larger ones; Handles: union and intersection of every ordered pair of duplicate-free handle lists of length <=3 over 5 handles (thorough <=4 over 6), in every order, followed by contains() probes, plus seeded random lists over up to 24 handles; from_iter/contains/sort on every list. Layers 2/3 - 4000 (thorough 60000) seeded random store histories of the C01 generator (<=12 or <=24 operations, typed values, half of them with removals); per history 3 random SELECT queries from the grammar of the fragment (result types ANNOTATION DATA KEY RESOURCE DATASET TEXT; 0-4 constraints per level out of ID, ANNOTATION, RESOURCE, DATASET, DATA set key, DATA set key op value, VALUE, DATA ?x, KEY ?x, TEXT ?x, RELATION ?x OP, TEXT literal incl. NOCASE with capitals, by id and by variable, normal and AS METADATA/TARGET; UNION of 2-3 branches; LIMIT with bounds -3..4; up to two nested (OPTIONAL) sub-queries referring to the outer variables; text literals drawn from the texts of the store), each in every order of the constraints of the outer level (<=4) and of the sub-query (<=3); per ordering: rows through STAMQL text, through the constructors and (queries without variables) through the iterator API, compared as sorted rows; every 4th history a DELETE ANNOTATION query and every 4th an ADD ANNOTATION query through query_mut, next to the direct calls, compared through the store observation of C01; DELETE without sub-query. Non-trivial: some row is returned / an annotation is added / removed. distinct = distinct request lines.";
+pub const RULE: &str = "Layer 1 - LimitIter: exhaustive over item counts 0..=7 (thorough 12) and all (begin,end) in -9..=9 (thorough -15..=15), plus random larger ones; Handles: union and intersection of every ordered pair of duplicate-free handle lists of length <=3 over 5 handles (thorough <=4 over 6), in every order, followed by contains() probes, plus seeded random lists over up to 24 handles; from_iter/contains/sort on every list. Layers 2/3 - 4000 (thorough 60000) seeded random store histories of the C01 generator (<=12 or <=24 operations, typed values, half of them with removals); per history 3 random SELECT queries from the grammar of the fragment (result types ANNOTATION DATA KEY RESOURCE DATASET TEXT; 0-4 constraints per level out of ID, ANNOTATION, RESOURCE, DATASET, DATA set key, DATA set key op value, VALUE, DATA ?x, KEY ?x, TEXT ?x, RELATION ?x OP, TEXT literal incl. NOCASE with capitals, by id and by variable, normal and AS METADATA/TARGET; UNION of 2-3 branches; LIMIT with bounds -3..4; up to two nested (OPTIONAL) sub-queries referring to the outer variables; text literals drawn from the texts of the store), each in every order of the constraints of the outer level (<=4) and of the sub-query (<=3); every third history gets an annotation over two text selections of one resource (Multi/Composite/Directional) with simple annotations on and around its ranges, and ten queries SELECT ANNOTATION ?p { SELECT ANNOTATION|TEXT ?w WHERE RELATION ?p OP [; RESOURCE r | ANNOTATION ?p] } - one per relation operator, RELATION first and (through the orderings) later; per ordering: rows through STAMQL text, through the constructors and (queries without variables) through the iterator API, compared as sorted rows; every 4th history a DELETE ANNOTATION query and every 4th an ADD ANNOTATION query through query_mut, next to the direct calls, compared through the store observation of C01; DELETE without sub-query. Non-trivial: some row is returned / an annotation is added / removed. distinct = distinct request lines.";
 
 pub const EXHAUSTIVE: bool = true;
